@@ -35,11 +35,20 @@
                               for every previous contents of the pad the result is the value `get` returns (so every theorem
                               above about `get` holds for the call as the agent makes it); `emptyFastPath_returns_stale_bytes`
                               = the seeded variant returning the previous second's bytes for an empty second (`decide`)
+   * `accepted_size_readable`, `accepted_size_readable_P`, `max_chunk_boundary` (SH/Lemmas/DiskCacheLimits.lean) the size check of
+                              the writer (`len > maxChunkSize` rejected) implies the size check of the tail reader for ALL sizes,
+                              stated also for arbitrary limits maxPut ≤ maxRead; the boundary body of exactly maxChunkSize fills a
+                              file to exactly fileRotateSize and is accepted by both; seeded reader (`>=`) as `decide` witness
+   * `acct_of_inv`, `acct_vanish`, `acct_skipMissing`, `vanish_then_read_accounts`  fault "a waiting tail file vanishes before the
+                              tail reader opens it" (model: `vanish`, `hasFile`, `skipMissing` = the OpenFile-error branch):
+                              total = bytes on disk + sizes of vanished files not yet reached; the reader's missing-file iteration
+                              subtracts exactly that, so total = bytes on disk again once it has been through the waiting list
   NOTHING of the property statement remains partial in Lean. Outside the theorems (assumptions, see checks/C09.py): I/O error
   branches, crc strength (parameter), prefix-preserving file system, increasing file names, flock, size rotation on real files.
 -/
 import SH.Lemmas.DiskCacheTornErase
 import SH.Lemmas.DiskCachePad
+import SH.Lemmas.DiskCacheLimits
 import SH.Gen.C09
 
 namespace SH.C09
